@@ -173,10 +173,18 @@ fn in_scratch(a: u16) -> bool {
 }
 
 /// Places the CPU at the entry of LD-BYTES as a CALL 0x0556 from `RET_ADDR - 3` would.
-pub fn setup_call(e: &mut Emu, r: &Req, f_other: u8) {
+pub fn setup_call(e: &mut Emu, r: &Req, f_other: u8, settle: bool) {
     e.verif_write_mem(SP0, (RET_ADDR & 0xFF) as u8, 0);
     e.verif_write_mem(SP0 + 1, (RET_ADDR >> 8) as u8, 0);
-    e.verif_set_frame_clocks(2000);
+    // keep the few instructions around the trap away from the INT window at the frame start (the
+    // ROM's EI just before returning would let the interrupt routine touch FRAMES); time only moves
+    // forward, and only while the tape is not being played in real time
+    if settle {
+        let fc = e.verif_frame_clocks();
+        if fc > 60000 || fc < 64 {
+            e.verif_wait(12000);
+        }
+    }
     let cpu = e.verif_cpu();
     cpu.regs.set_acc(r.a);
     cpu.regs.set_flags((f_other & 0xFE) | if r.load { 1 } else { 0 });
@@ -229,7 +237,7 @@ fn real_request(e: &mut Emu, r: &Req, span: usize, f_other: u8) -> (Vec<u8>, Obs
             e.verif_write_mem(a, *b, 0);
         }
     }
-    setup_call(e, r, f_other);
+    setup_call(e, r, f_other, true);
     let before = snapshot(e);
     let win_before: Vec<u8> = (0..span).map(|i| before[r.ix.wrapping_add(i as u16) as usize]).collect();
     let outcome = run_until_return(e, 2);
@@ -331,7 +339,7 @@ fn diff_field(o: &Obs, s: &Side) -> Option<(&'static str, String, String)> {
 pub fn detect_variant() -> bool {
     let mut e = new_emu(false, &[], true);
     let r = Req { a: 0xFF, load: true, ix: 0x8000, de: 0x0010, fill: Fill::None };
-    setup_call(&mut e, &r, 0);
+    setup_call(&mut e, &r, 0, true);
     run_until_return(&mut e, 2) == "loops"
 }
 
